@@ -143,6 +143,7 @@ template <typename F> static void op_product(const Case& c, Outcome& o) {
   Q p = q1 * q2; o.res(FT<F>::bits(p.w), FT<F>::bits(p.x));
   CHK(25, dqq(toL(p), hmul(a, b)), 12 * u, 0, 1, "q1*q2 is not the Hamilton product");   // four products of magnitude <= 1 and three additions per component
   { Q p2 = q1; p2 *= q2; CHK(29, dqq(toL(p2), hmul(a, b)), 12 * u, 0, 2, "q1 *= q2 is not the Hamilton product"); }
+  { Q p3 = q1; p3 *= p3; CHK(30, dqq(toL(p3), hmul(a, a)), 12 * u, 0, 6, "q *= q (right operand aliases the target) is not the Hamilton square"); }
   LM Mp = toL(glm::mat3_cast(p));
   CHK(26, dmm(Mp, Rab), 40 * u, 2 * nd, 3, "mat3_cast(q1*q2) is not R(q1)R(q2)");
   CHK(27, dmm(Mp, toL(glm::mat3_cast(q1) * glm::mat3_cast(q2))), 32 * u, 4 * nd, 4, "mat3_cast(q1*q2) != mat3_cast(q1)*mat3_cast(q2)");
